@@ -334,9 +334,9 @@ func init() {
 			if tier == "thorough" {
 				o.MinSegments, o.MaxSegments, o.MaxWrites = 50, 400, 40000
 			}
-			return media.Gen(seed, idx, o), muxrun.Options{Light: true}
+			return media.Gen(seed, idx, o), muxrun.Options{Light: true, RoundEvery: 4}
 		},
-		rule:        "long histories (20-60 rotations quick, 50-400 thorough) in every variant; non-trivial = >= 3 published segments; window slides counted",
+		rule:        "long histories (20-60 rotations quick, 50-400 thorough; playlists observed after every rotation and every 4th write) in every variant; non-trivial = >= 3 published segments; window slides counted",
 		assumptions: stdAssumptions(),
 		floors:      map[string]int{"C04.streams_slid_2x": 20, "C04.hints_checked": 200, "cases.variant3": 5},
 	})
